@@ -7,3 +7,6 @@ const YieldEnabled = false
 
 // YieldStats is all zero in the plain build.
 func YieldStats() (points int, calls, slept int64) { return 0, 0, 0 }
+
+// SetYieldGate does nothing in the plain build (there are no yield points).
+func SetYieldGate(f func(point string)) {}
